@@ -8,6 +8,7 @@ Spec: `Pc.Spec.phi x a` (Legendre sum), `Pc.Spec.p i` (i-th prime).
 import PcProofs.PhiCacheTop
 import PcProofs.PhiCacheVec
 import PcProps.C17Sieve
+import PcProps.C07
 
 namespace Pc.C07Cache
 open Pc.Spec Pc.PhiCacheL2 Pc.PhiCacheProofs Pc.PhiAlgProofs
@@ -127,6 +128,22 @@ noncomputable example : Inv (((State.new 139 2000).initCache (fun i => p i) 12).
     (cache_constructor_inv _ _) (by norm_num) (by decide) (by decide) (fun _ _ _ => rfl)
   exact (init_cache_invariant (fun i => p i) _ 40 h1 (by norm_num) (by rw [h5]; decide) (by rw [h2]; norm_num)
     (fun _ _ _ => rfl)).1
+
+/-- the environment hypotheses of the recursion theorems are satisfiable (ideal prime vector, π table, phi_tiny) -/
+noncomputable def exEnv (n : ℕ) : PhiEnv :=
+  { prime := fun i => if i = 0 then 0 else p i, piSize := n, piTab := fun v => π v, tiny := fun y b => phi y b,
+    cache := { maxX := 0, maxA := 0, val := fun _ _ => 0 } }
+
+example (n A : ℕ) : BaseOK (exEnv n) A :=
+  ⟨by simp [exEnv], fun i hi _ => by simp [exEnv]; omega, fun _ _ => rfl, fun _ _ _ => rfl⟩
+
+/-- `phi_cpp_correct` instantiated: two threads splitting the indices 9..a in an interleaved way, any estimate -/
+example (x a : ℤ) (est : ℕ) (w1 w2 : List ℕ) (h : (w1 ++ w2).Perm (List.range' 9 (a.toNat - 8))) :
+    phiCpp Pc.C07.exTop est [w1, w2] x a = phiZ x a :=
+  phi_cpp_correct Pc.C07.exTop x a
+    { pixUpperX := le_rfl, pixUpperSqrt := le_rfl, piFn := rfl, prime0 := by simp [Pc.C07.exTop],
+      prime := fun i hi _ => by simp [Pc.C07.exTop]; omega, piTab := fun _ _ => rfl, tiny := fun _ _ _ => rfl }
+    est [w1, w2] (by simpa using h)
 
 /-- executable instance: the model's cache for the first primes answers φ(1000, 9) = 163, φ(2159, 10) = 335 -/
 def exPrimes (i : ℕ) : ℕ := [0, 2, 3, 5, 7, 11, 13, 17, 19, 23, 29, 31, 37].getD i 0
